@@ -334,6 +334,12 @@ def run(ctx):
     for a_, b_ in itertools.product(ex, ex):
         texts.append(a_ + b_)
         texts.append(a_ + " " + b_)
+    # a token between two others: every exemplar between every pair of (punctuation, keyword, name, number, line break)
+    # neighbours, glued and with blanks - what a token is must not depend on the tokens around it beyond longest match
+    nb = [sentences.EXEMPLARS[t] for t in ("LBRAC", "COMMA", "ASSIGN", "RBRAC", "NEWLINE", "TAB", "NAME", "INT", "APPLY", "PERIOD", "MINUS", "LSQBRAC") if t in sentences.EXEMPLARS]
+    for a_, b_, c_ in itertools.product(nb, ex, nb):
+        texts.append(a_ + b_ + c_)
+        texts.append(a_ + " " + b_ + " " + c_)
     res = pool.pmap(_lex_case, texts, chunk=200)
     lex_bad = 0
     for t, r in zip(texts, res):
